@@ -43,6 +43,38 @@ def install(E):
         lst.append((term, arg))
     E.inj = inj
 
+    # group operations: ring arithmetic over Z ('alg', needed for the BDHKE/DLEQ identities of C10) or
+    # uninterpreted operations with pairwise cancellation instances ('euf', much cheaper; enough wherever
+    # only "same key, same point" reasoning is needed)
+    pmul_f = z3.Function('pmul', IntS, IntS, IntS)
+    padd_f = z3.Function('padd', IntS, IntS, IntS)
+    def pmul(e, k, P):
+        if getattr(e, 'crypto_mode', 'alg') == 'alg': return k * P
+        t = pmul_f(k, P)
+        lst = e.P.g.setdefault('pmuls', [])
+        if not any(t.eq(x[0]) for x in lst):
+            e.P.solver.add(t != 0)
+            for (t2, k2, P2) in lst:
+                e.P.solver.add(z3.Implies(t == t2, (k == k2) == (P == P2)))
+            lst.append((t, k, P))
+        return t
+    def padd(e, a, b):
+        if getattr(e, 'crypto_mode', 'alg') == 'alg': return a + b
+        return padd_f(a, b) if a.get_id() <= b.get_id() else padd_f(b, a)
+    def pubof(e, k):
+        if getattr(e, 'crypto_mode', 'alg') == 'alg': return k
+        return pmul(e, k, z3.IntVal(1))
+    def sneg(e, x):
+        if getattr(e, 'crypto_mode', 'alg') == 'alg': return -x
+        return z3.Function('sneg', IntS, IntS)(x)
+    def smul(e, x, y):
+        if getattr(e, 'crypto_mode', 'alg') == 'alg': return x * y
+        return z3.Function('smul', IntS, IntS, IntS)(x, y)
+    def sadd(e, x, y):
+        if getattr(e, 'crypto_mode', 'alg') == 'alg': return x + y
+        return z3.Function('sadd', IntS, IntS, IntS)(x, y)
+    E.pubof = pubof
+
     # ---- sha256
     def sum256(e, a):
         s = e.sha256(e.tobytes(a[0]))
@@ -81,7 +113,7 @@ def install(E):
             return (None, mkerr('invalid public key: x coordinate is not on the secp256k1 curve'))
         E.note_dec(e, t, 'pt', parsept(t), validpt(t))
         if e.branch(validpt(t)):
-            e.ax(('vpt', t.get_id()), z3.Or(slen(t) == 33, slen(t) == 65))
+            e.ax(('vpt', t.get_id()), z3.Or(slen(t) == 33, slen(t) == 65), parsept(t) != 0)
             return (mkpk(parsept(t)), None)
         return (None, mkerr('malformed public key'))
     I[SECP + 'ParsePubKey'] = parse_pubkey
@@ -90,10 +122,10 @@ def install(E):
     I['(*%sPublicKey).IsEqual' % SECP] = lambda e, a: pkval(e, a[0]) == pkval(e, a[1])
     def as_jac(e, a): e.store(a[1], Opaque('jac', pkval(e, a[0]))); return None
     I['(*%sPublicKey).AsJacobian' % SECP] = as_jac
-    I['(*%sPrivateKey).PubKey' % SECP] = lambda e, a: mkpk(privval(e, a[0]))
-    def add_nc(e, a): e.store(a[2], Opaque('jac', scval(e, a[0]) + scval(e, a[1]))); return None
+    I['(*%sPrivateKey).PubKey' % SECP] = lambda e, a: mkpk(pubof(e, privval(e, a[0])))
+    def add_nc(e, a): e.store(a[2], Opaque('jac', padd(e, scval(e, a[0]), scval(e, a[1])))); return None
     I[SECP + 'AddNonConst'] = add_nc
-    def mul_nc(e, a): e.store(a[2], Opaque('jac', scval(e, a[0]) * scval(e, a[1]))); return None
+    def mul_nc(e, a): e.store(a[2], Opaque('jac', pmul(e, scval(e, a[0]), scval(e, a[1])))); return None
     I[SECP + 'ScalarMultNonConst'] = mul_nc
     I['(*%sJacobianPoint).ToAffine' % SECP] = lambda e, a: None
     def new_pub(e, a):
@@ -101,11 +133,11 @@ def install(E):
         parent = Ptr(xp.box, xp.path[:-1])
         return mkpk(e.peek(parent).val)
     I[SECP + 'NewPublicKey'] = new_pub
-    def negate_val(e, a): e.store(a[0], Opaque('sc', -scval(e, a[1]))); return a[0]
+    def negate_val(e, a): e.store(a[0], Opaque('sc', sneg(e, scval(e, a[1])))); return a[0]
     I['(*%sModNScalar).NegateVal' % SECP] = negate_val
-    def sc_mul(e, a): e.store(a[0], Opaque('sc', scval(e, a[0]) * scval(e, a[1]))); return a[0]
+    def sc_mul(e, a): e.store(a[0], Opaque('sc', smul(e, scval(e, a[0]), scval(e, a[1])))); return a[0]
     I['(*%sModNScalar).Mul' % SECP] = sc_mul
-    def sc_add(e, a): e.store(a[0], Opaque('sc', scval(e, a[0]) + scval(e, a[1]))); return a[0]
+    def sc_add(e, a): e.store(a[0], Opaque('sc', sadd(e, scval(e, a[0]), scval(e, a[1])))); return a[0]
     I['(*%sModNScalar).Add' % SECP] = sc_add
     I[SECP + 'NewPrivateKey'] = lambda e, a: mkpriv(scval(e, a[0]))
     def gen_priv(e, a):
@@ -123,7 +155,7 @@ def install(E):
         e.ax(('b2s', k.get_id()), z3.Implies(slen(t) == 32, serk(k) == t))
         return mkpriv(k)
     I[SECP + 'PrivKeyFromBytes'] = priv_from_bytes
-    I['github.com/btcsuite/btcd/btcec/v2.PrivKeyFromBytes'] = lambda e, a: (lambda p: (p, mkpk(privval(e, p))))(priv_from_bytes(e, a))
+    I['github.com/btcsuite/btcd/btcec/v2.PrivKeyFromBytes'] = lambda e, a: (lambda p: (p, mkpk(pubof(e, privval(e, p)))))(priv_from_bytes(e, a))
     def priv_serialize(e, a):
         k = a[0].f[0].val
         t = serk(k)
@@ -172,7 +204,7 @@ def install(E):
     def sig_verify(e, a):
         sig = e.peek(a[0]).val; h = e.sterm(e.tobytes(a[1])); P = pkval(e, a[2])
         if is_app_of(sig, 'schnorr_sig'):
-            return z3.And(sig.arg(1) == h, sig.arg(0) == P)
+            return z3.And(sig.arg(1) == h, pubof(e, sig.arg(0)) == P)
         # a signature string that did not come from the signing oracle never verifies (unforgeability, stated)
         return False
     I['(*%sSignature).Verify' % SCHNORR] = sig_verify
@@ -189,7 +221,7 @@ def install(E):
         return (mkx(hd_derive(k, z3.BitVecVal(idx, 32) if isinstance(idx, int) else idx)), None)
     I['(*%sExtendedKey).Derive' % HD] = derive
     I['(*%sExtendedKey).ECPrivKey' % HD] = lambda e, a: (mkpriv(hd_priv(e.peek(a[0]).val)), None)
-    I['(*%sExtendedKey).ECPubKey' % HD] = lambda e, a: (mkpk(hd_priv(e.peek(a[0]).val)), None)
+    I['(*%sExtendedKey).ECPubKey' % HD] = lambda e, a: (mkpk(pubof(e, hd_priv(e.peek(a[0]).val))), None)
     def gen_seed(e, a):
         k = e.P.g['seedcnt'] = e.P.g.get('seedcnt', 0) + 1
         t = z3.Const('genseed%d' % k, Str)
